@@ -360,7 +360,7 @@ def cases(tier, seed):
                dict(DEFAULT, line_search=True, maxNumIter=3, max_iter_line_search=2),
                dict(DEFAULT, line_search=True, maxNumIter=6, max_iter_line_search=2, absTOL=1e-6)]
     for cfg in it_cfgs:
-        depth = (5 if not cfg['line_search'] else 4) if q else (8 if not cfg['line_search'] else 7)
+        depth = (5 if not cfg['line_search'] else 4) if q else (7 if not cfg['line_search'] else 6)
         for first in range(len(ITER_LETTERS)):
             out.append(dict(gran='iter', cfg=dict(cfg, depth=depth), bound=99, first=first))
     # (e) a second analysis on the same Analysis object: every first-run history up to a depth x second-run first choice
